@@ -510,8 +510,8 @@ func (e *executor) callSetter(p mq.ControlPacket, name string, args []string) (r
 				in = append(in, reflect.ValueOf(mq.NewTopicFilter(string(f), mq.Opt(o))))
 			}
 		} else {
-			if name == "AddUserProp" && len(rest) != 2 {
-				return "bad-op"
+			if name == "AddUserProp" && (len(rest) < 2 || len(rest)%2 != 0) {
+				return "bad-op" // one variadic call with one or more key/value pairs
 			}
 			for _, a := range rest {
 				v, ok := conv(et, a)
